@@ -571,7 +571,7 @@ fn build_write_script(rng: &mut Rng, w: u64) -> Vec<WStep> {
         // goes on: overwrites a few bytes inside the stream and flushes.  The stream is then
         // as before or resized (with the overwrite), for a fresh handle and, since that flush
         // rewrites the directory entry, in the stored bytes as well.
-        for (name, lens) in [("/g", &[100usize][..]), ("/r", &[1024, 1024, 1024, 1024, 904][..]), ("/z", &[1024, 1024, 1024, 928][..]), ("/keep", &[300][..])] {
+        for (name, lens) in [("/g", &[100usize][..]), ("/r", &[1024, 1024, 1024, 1024, 904][..]), ("/z", &[1024, 1024, 1024, 928][..]), ("/s", &[1024, 1024, 1024, 928][..]), ("/keep", &[300][..])] {
             s.push(WStep::OpenNew { slot: 0, path: name.into() });
             for l in lens {
                 s.push(WStep::Write { slot: 0, len: *l });
@@ -588,6 +588,21 @@ fn build_write_script(rng: &mut Rng, w: u64) -> Vec<WStep> {
             s.push(WStep::FlushHandle { slot: 0 });
             s.push(WStep::CloseHandle { slot: 0 });
         }
+        // a shrink in place that fails and is not repeated; another stream comes and goes
+        // (it may be given what the shrink released); then the stream grows again, to less
+        // than it had: as before cut to that length, or resized with zeros gained
+        s.push(WStep::OpenExisting { slot: 0, path: "/s".into() });
+        s.push(WStep::SetLen { slot: 0, n: 600 });
+        s.push(WStep::OpenNew { slot: 1, path: "/o".into() });
+        for _ in 0..3 {
+            s.push(WStep::Write { slot: 1, len: 1024 });
+        }
+        s.push(WStep::FlushHandle { slot: 1 });
+        s.push(WStep::CloseHandle { slot: 1 });
+        s.push(WStep::Remove("/o".into()));
+        s.push(WStep::SetLen { slot: 0, n: 3000 });
+        s.push(WStep::FlushHandle { slot: 0 });
+        s.push(WStep::CloseHandle { slot: 0 });
         s.push(WStep::OpenNew { slot: 1, path: "/d".into() });
         s.push(WStep::Write { slot: 1, len: 500 });
         s.push(WStep::FlushHandle { slot: 1 });
@@ -905,6 +920,10 @@ struct HState {
     /// while `failed_set_len` is set: the other candidate (the stream as the failed set_len
     /// would have left it), carried along through later writes and resizes
     alt: Option<Vec<u8>>,
+    /// third candidate after a failed *shrink*: the chain was cut (at the next mini sector /
+    /// sector boundary) but the recorded length stayed - unreadable as it is, and after a
+    /// later successful resize: the bytes up to the cut, zeros behind
+    alt2: Option<Vec<u8>>,
     /// a write or a successful set_len came after the failed set_len: the next write-back
     /// rewrites the directory entry, so that the stored bytes must agree with the live
     /// object again from the next Ok flush on
@@ -1003,7 +1022,7 @@ fn w_exec(st: &mut WState, step: &WStep, rep: &mut Report) -> Result<Result<(), 
                         }
                         st.shared.pause_faults(false);
                     }
-                    st.handles[*slot] = Some(HState { stream: s, path: path.clone(), pos: 0, content, tainted, last_flush_failed: false, failed_set_len: None, alt: None, healed: false, entry_may_lag: false, epoch: st.taint_epoch });
+                    st.handles[*slot] = Some(HState { stream: s, path: path.clone(), pos: 0, content, tainted, last_flush_failed: false, failed_set_len: None, alt: None, alt2: None, healed: false, entry_may_lag: false, epoch: st.taint_epoch });
                     Ok(())
                 }
                 Err(e) => Err(e),
@@ -1034,6 +1053,15 @@ fn w_exec(st: &mut WState, step: &WStep, rep: &mut Report) -> Result<Result<(), 
                                 h.alt = None;
                                 h.failed_set_len = None;
                             }
+                        }
+                        match h.alt2.as_mut() {
+                            Some(a) if h.pos as usize <= a.len() => {
+                                if a.len() < end {
+                                    a.resize(end, 0);
+                                }
+                                a[h.pos as usize..end].copy_from_slice(&data[..k]);
+                            }
+                            _ => h.alt2 = None,
                         }
                         h.entry_may_lag = false;
                         if h.content.len() < end {
@@ -1074,6 +1102,15 @@ fn w_exec(st: &mut WState, step: &WStep, rep: &mut Report) -> Result<Result<(), 
                                 h.alt = None;
                                 h.failed_set_len = None;
                             }
+                        }
+                        match h.alt2.as_mut() {
+                            Some(a) if h.pos as usize <= a.len() => {
+                                if a.len() < end {
+                                    a.resize(end, 0);
+                                }
+                                a[h.pos as usize..end].copy_from_slice(&data[..k]);
+                            }
+                            _ => h.alt2 = None,
                         }
                         h.entry_may_lag = false;
                         if h.content.len() < end {
@@ -1125,7 +1162,9 @@ fn w_exec(st: &mut WState, step: &WStep, rep: &mut Report) -> Result<Result<(), 
                 }
             }
         },
-        WStep::SetLen { slot, n } => match st.handles.get_mut(*slot).and_then(|h| h.as_mut()) {
+        WStep::SetLen { slot, n } => {
+            let unit_len: usize = if st.cf.version() == Version::V3 { 512 } else { 4096 };
+            match st.handles.get_mut(*slot).and_then(|h| h.as_mut()) {
             None => Ok(()),
             Some(h) => match h.stream.set_len(*n) {
                 Ok(()) => {
@@ -1143,9 +1182,13 @@ fn w_exec(st: &mut WState, step: &WStep, rep: &mut Report) -> Result<Result<(), 
                         if let Some(a) = h.alt.as_mut() {
                             a.resize(*n as usize, 0);
                         }
-                        if h.alt.as_ref().map_or(true, |a| *a == h.content) {
+                        if let Some(a) = h.alt2.as_mut() {
+                            a.resize(*n as usize, 0);
+                        }
+                        if h.alt.as_ref().map_or(true, |a| *a == h.content) && h.alt2.as_ref().map_or(true, |a| *a == h.content) {
                             h.failed_set_len = None;
                             h.alt = None;
+                            h.alt2 = None;
                             h.healed = false;
                             h.tainted = false;
                             rep.count("set_len_recovered_content_known_again");
@@ -1177,17 +1220,25 @@ fn w_exec(st: &mut WState, step: &WStep, rep: &mut Report) -> Result<Result<(), 
                         let mut a = h.content.clone();
                         a.resize(*n as usize, 0);
                         h.alt = Some(a);
+                        h.alt2 = None;
+                        if (*n as usize) < h.content.len() && *n > 0 {
+                            let unit = if h.content.len() < 4096 { 64 } else { unit_len };
+                            let cut = ((*n as usize + unit - 1) / unit * unit).min(h.content.len());
+                            h.alt2 = Some(h.content[..cut].to_vec());
+                        }
                         h.healed = false;
                     } else {
                         // a second failure: nothing is known any more
                         h.failed_set_len = None;
                         h.alt = None;
+                        h.alt2 = None;
                     }
                     h.tainted = true;
                     Err(e)
                 }
             },
-        },
+            }
+        }
         WStep::FlushHandle { slot } | WStep::CloseHandle { slot } => {
             let close = matches!(step, WStep::CloseHandle { .. });
             match st.handles.get_mut(*slot).and_then(|h| h.as_mut()) {
@@ -1260,13 +1311,15 @@ fn w_exec(st: &mut WState, step: &WStep, rep: &mut Report) -> Result<Result<(), 
                             st.shared.pause_faults(false);
                             if rb.is_ok() {
                                 let resized = h.alt.clone().unwrap_or_else(|| h.content.clone());
-                                if got != h.content && got != resized {
+                                let cut = h.alt2.clone().unwrap_or_else(|| h.content.clone());
+                                if got != h.content && got != resized && got != cut {
                                     return Err(("flush Ok | after a failed set_len the stream is neither as before nor resized".to_string(), format!("{}: {} bytes accepted, set_len({n}) failed and was not repeated, flush returned Ok; a fresh handle reads {} bytes{}", h.path, h.content.len(), got.len(), if got.len() == h.content.len() { format!(" ({})", engine::describe_bytes_diff(&h.content, &got)) } else if got.len() == resized.len() { format!(" ({})", engine::describe_bytes_diff(&resized, &got)) } else { String::new() })));
                                 }
                                 rep.count("ok_flush_after_unrepeated_failed_set_len_checked");
                                 // which of the two it was is known now
                                 h.content = got;
                                 h.alt = None;
+                                h.alt2 = None;
                                 h.failed_set_len = None;
                                 h.tainted = false;
                                 // unless a write or resize since the failure made this flush
